@@ -139,3 +139,17 @@ Proof.
   exists [(A, FIVE)], A, [55%N]. vm_compute. eexists _, _. split; [reflexivity|].
   split; [left; reflexivity|]. split; [reflexivity|]. eexists. repeat split.
 Qed.
+
+(* `readonly a` without a value, hidden by nothing *)
+Definition ex_valueless : vset :=
+  match run init [OGetOrNew A SGlobal [MReadOnly 9%N]] with Some s => s | None => init end.
+
+Lemma ex_valueless_facts :
+  Inv ex_valueless /\
+  exists w, get ex_valueless A = Some w /\ vval w = None /\ vro w = Some 9%N.
+Proof.
+  split.
+  - apply (inv_run [OGetOrNew A SGlobal [MReadOnly 9%N]] init); [exact ProofsBase.inv_init|].
+    vm_compute. reflexivity.
+  - vm_compute. eexists; repeat split.
+Qed.
